@@ -60,8 +60,8 @@ pub fn fmt_debug<KD: Kind>(cx: &mut Ctx, x: &dyn fmt::Debug, alt: bool) -> Resul
     render(cx, KD::NOALLOC, |s| if alt { write!(s, "{x:#?}") } else { write!(s, "{x:?}") })
 }
 
-/// Formatting with width / fill / alignment / sign / precision flags: only the allocation
-/// oracle (C06) looks at these; the output under such flags is outside C19's statement.
+/// Formatting with width / fill / alignment / sign / precision flags: allocation oracle (C06).
+/// (What `Display` must render under such options is checked by `display_spec_check`.)
 pub fn fmt_spec_noalloc<KD: Kind>(cx: &mut Ctx, d: Option<&dyn fmt::Display>, g: Option<&dyn fmt::Debug>, spec: u8) {
     if !KD::NOALLOC {
         return;
@@ -216,4 +216,60 @@ impl<K: fmt::Debug> fmt::Debug for RealSet<'_, K> {
     fn fmt(&self, f: &mut fmt::Formatter<'_>) -> fmt::Result {
         f.debug_set().entries(self.0.iter()).finish()
     }
+}
+
+/// `Display` under formatter options (width, fill, alignment, sign, precision). The statement
+/// fixes one layout - '{' entries joined by ", " '}' - and says nothing about whether an entry
+/// sees the caller's options, so both readings are accepted, but the same one for every key and
+/// the same one for every value: the output must be the layout over entries rendered with the
+/// options, or over entries rendered plainly (any of the combinations for keys and values).
+/// Padding or truncating the whole text, or treating the first entry differently from the rest,
+/// is not that layout.
+pub const NDSPEC: usize = 7;
+pub const DSPEC_NAMES: [&str; NDSPEC] = ["{:>6}", "{:<4}", "{:^7}", "{:+}", "{:.1}", "{:05}", "{:*<5.2}"];
+
+fn write_dspec(s: &mut Sink, x: &dyn fmt::Display, spec: usize) -> fmt::Result {
+    match spec % NDSPEC {
+        0 => write!(s, "{x:>6}"),
+        1 => write!(s, "{x:<4}"),
+        2 => write!(s, "{x:^7}"),
+        3 => write!(s, "{x:+}"),
+        4 => write!(s, "{x:.1}"),
+        5 => write!(s, "{x:05}"),
+        _ => write!(s, "{x:*<5.2}"),
+    }
+}
+
+pub fn fmt_display_spec<KD: Kind>(cx: &mut Ctx, x: &dyn fmt::Display, spec: usize) -> Result<String, Pk> {
+    render(cx, KD::NOALLOC, |s| write_dspec(s, x, spec))
+}
+
+/// reference rendering of one payload object under the options (harness side)
+pub fn ref_display_spec(x: &dyn fmt::Display, spec: usize) -> String {
+    let mut sink = Sink::new();
+    let _ = tl::outside(|| write_dspec(&mut sink, x, spec));
+    sink.as_str().to_string()
+}
+
+/// `keys` / `vals`: per entry (rendered with the options, rendered plainly); `vals` is None for sets.
+pub fn display_spec_accepts(out: &str, keys: &[(String, String)], vals: Option<&[(String, String)]>) -> bool {
+    for ks in 0..2 {
+        for vs in 0..2 {
+            let parts: Vec<String> = keys
+                .iter()
+                .enumerate()
+                .map(|(i, k)| {
+                    let kk = if ks == 0 { &k.0 } else { &k.1 };
+                    match vals {
+                        Some(v) => format!("{kk}: {}", if vs == 0 { &v[i].0 } else { &v[i].1 }),
+                        None => kk.clone(),
+                    }
+                })
+                .collect();
+            if out == format!("{{{}}}", parts.join(", ")) {
+                return true;
+            }
+        }
+    }
+    false
 }
